@@ -127,4 +127,14 @@ example : let inst : Instance := { id := List.replicate 16 0, ty := .excavator, 
     (run inst {} [.bytes ((Frame.mk 0x10 [0x10, 0x61]).bytes ++ (Frame.mk 0x20 [5, 0, 100]).bytes ++ [0x4C, 0x58]),
       .close .reset]).2.drop 2 = [.failsafeStop, .ended] := by decide
 
+/-- what the theorems above are about is the session function of the current tree (regenerated from server.rs on every
+run): the model's `close` event stands for the four read-error kinds whose arm leaves the loop; control reaches the
+fail-safe block whenever the loop is left, because nothing returns out of the function before it; and the block sends
+stop-all when the current registration is a fail-safe one -/
+theorem C03_failsafe_path_as_modelled :
+    sessionEndKinds = [1, 2, 3, 4] ∧ sessionReturnsBeforeFailsafe = 0 ∧ sessionFailsafeAfterLoop = true ∧
+    sessionStartsUnregistered = true :=
+  ⟨C04_session_loop_as_modelled.1, C04_session_loop_as_modelled.2.2.2.2.1, C04_session_loop_as_modelled.2.2.2.2.2.1,
+   C04_session_loop_as_modelled.2.2.2.2.2.2⟩
+
 end Glonax.Thm.C03
